@@ -737,6 +737,20 @@ func (x *Exec) harnessOp(op Op, res *OpResult) bool {
 		w.SetPhase(p.Name, ph)
 		res.Pod = p
 		res.Info = p.Name + " -> " + string(ph)
+	case "terminate":
+		// graceful deletion begins: deletion timestamp set, the pod still runs with its address
+		c := x.existingPods(nil)
+		if len(c) == 0 {
+			res.NoOp = true
+			return true
+		}
+		p := c[pick(len(c), op.A)]
+		if !p.Bound || !p.Live() || !w.SetTerminating(p.Name) {
+			res.NoOp = true
+			return true
+		}
+		res.Pod = p
+		res.Info = p.Name + " terminating"
 	case "delete":
 		c := x.existingPods(nil)
 		if len(c) == 0 {
@@ -903,6 +917,8 @@ func canonKind(k string) string {
 		return "restart"
 	case "bindgone":
 		return "bind"
+	case "terminate":
+		return "phase" // an update of a pod that stays alive
 	}
 	return k
 }
